@@ -23,7 +23,7 @@ EXPLANATION = (
     "documented kind with __init__ introspection last. Emitted text is audited; nothing emitted is called."
 )
 RULE = "one evaluation = one (logical model, name_mapping, mode) group compared across kinds / one converter pair / one import"
-ASSUMPTIONS = ["kinds: dataclass, NamedTuple, TypedDict, attrs, pydantic (sqlalchemy needs tables and is not enumerated)",
+ASSUMPTIONS = ["kinds: dataclass, NamedTuple, TypedDict, attrs, pydantic; sqlalchemy takes part in one spec (scalar columns, natural primary key, a renamed column)",
                "field types from {int, str, float, bool, Any, List[int], Optional[int], Dict[str, int]}; defaults are immutable "
                "values or list/dict factories; kinds that cannot express a spec are skipped for it",
                "value-level behaviour of the bound loaders/dumpers is the other properties' business"]
